@@ -210,21 +210,23 @@ TB_CORR = ["correspondence check: harness/driver.cpp (C++, built from /repo's wo
            "ICU 72.1 uidna_nameToASCII as UTS #46; the translation of the Standard's ToASCII flags into an ICU option word and ignored-error mask (icu_stub.c)",
            "Spec.* as hand transcription of the WHATWG URL Standard (DESIGN appendix A)"]
 
+TB_ICU_LAWS = "ICU laws H_ascii and H_keep (Properties_C07.v) are explicit premises of the conformance theorems; they are sampled against the real ICU by the host stream on every C07 run, not proved"
+
 PROPS = {
     "C13": P("proof", proof_search=c13_search,
         trusted_base=[
             "translator T1: harness/dump_tables.cpp compiled by g++ in -std=c++11/14/17/20 against /repo's current headers and sources (-fno-access-control) + harness/gen_tables.py",
             "Spec.CodePoints: hand transcription of the Standard's set definitions (DESIGN appendix A.1)"],
         assumptions=["the four language modes are exercised with g++ 12.2 only"]),
-    "C01": P("exploration", model_variants=["spec", "impl"], streams=["parse", "parse_exhaustive"], trusted_base=TB_CORR, coq_files=["Properties_C01_total.v"]),
+    "C01": P("proof", model_variants=["spec", "impl"], streams=["parse", "parse_exhaustive"], trusted_base=TB_CORR + [TB_ICU_LAWS], coq_files=["Properties_C01_total.v", "Properties_C01.v"]),
     "C02": P("exploration", model_variants=["spec", "impl"], streams=["reparse"], trusted_base=TB_CORR),
-    "C03": P("exploration", model_variants=["spec", "impl"], streams=["setters"], trusted_base=TB_CORR),
+    "C03": P("proof", model_variants=["spec", "impl"], streams=["setters"], trusted_base=TB_CORR + [TB_ICU_LAWS]),
     "C05": P("exploration", model_variants=["spec", "impl"], streams=["histories"], trusted_base=TB_CORR, coq_files=["Properties_C06.v"]),
     "C06": P("proof", ["histories"], trusted_base=TB_CORR),
     "C07": P("proof", model_variants=["spec", "impl"], streams=["host"], trusted_base=TB_CORR + ["ICU laws H_ascii and H_keep (Properties_C07.v) are explicit premises of C07_host / C07_fastpath / C07_precheck; they are sampled against the real ICU by the host stream, not proved"]),
     "C08": P("proof", model_variants=["spec", "impl"], streams=["parse", "setters", "histories"],
              trusted_base=TB_CORR + ["idna_ascii_lower (ICU returns ASCII without upper-case letters) is an explicit premise of the C08 theorems"]),
-    "C09": P("proof", model_variants=["spec", "impl"], streams=["canparse"], trusted_base=TB_CORR),
+    "C09": P("proof", model_variants=["spec", "impl"], streams=["canparse"], trusted_base=TB_CORR, coq_files=["Properties_C09.v", "Properties_C01.v"]),
     "C10": P("proof", ["encodings"], trusted_base=TB_CORR),
     "C11": P("proof", ["ipv4"], trusted_base=TB_CORR),
     "C12": P("proof", ["ipv6"], trusted_base=TB_CORR),
